@@ -10,7 +10,7 @@ from ..report import Check
 from ..setalg import FixedArray, Interp, ModelRaise, Obj
 from ..types import Types
 from ..util import calls_in, fkey, is_method_call, node_calls, path_of, recv_of, where
-from .mgr import MGR, CORE, self_call
+from .mgr import module_writers, MGR, CORE, self_call
 
 COUNTERS = ("message_counts", "traffic_counter")
 
@@ -109,7 +109,7 @@ def run(prog: Program, chk: Check):
         # with counting enabled, no path reaches a return / the routing code without the increment
         inc_ids = {incs[0].id}
         gs2 = flow.guard_states(g, edge_filter=lambda e: not (e.src in inc_ids and e.kind != "exc"))
-        later = [n for n in g.nodes if (n.kind == "stmt" and isinstance(n.ast, ast.Return)) or any(is_method_call(c, "send_message") for c in node_calls(n)) or n.kind == "exit"]
+        later = [n for n in g.nodes if (n.kind == "stmt" and isinstance(n.ast, ast.Return)) or any(is_method_call(c, module_writers(prog)) for c in node_calls(n)) or n.kind == "exit"]
         bad = []
         for n in later:
             ps = gs2.at(n) if n.kind != "exit" else [p for e in g.pred[g.exit.id] for p in gs2.after_edge(e) if not (e.src in inc_ids)]
